@@ -978,6 +978,33 @@ func (p *Prog) scalar() Operand {
 	return Operand{V: pickOf(p.r, heapScalars)}
 }
 
+// probeFor: the value looked for by Contains / IndexOf - half of the time something the list really holds (of every kind, nil
+// included; a nested container when it is a live variable), otherwise any value
+func (p *Prog) probeFor(r int) Operand {
+	l := p.m.list(r)
+	if n := l.Count(); n > 0 && p.r.chance(0.5) {
+		switch x := l.Get(p.r.Intn(n)).(type) {
+		case nil:
+			return Operand{V: vnil()}
+		case bool:
+			return Operand{V: vbool(x)}
+		case int:
+			return Operand{V: vint(x)}
+		case float64:
+			return Operand{V: vfloat(x)}
+		case string:
+			return Operand{V: vstr(x)}
+		default:
+			for i, v := range p.m.vars {
+				if v == x {
+					return Operand{IsReg: true, Reg: i}
+				}
+			}
+		}
+	}
+	return p.value(-1)
+}
+
 // value operand that may be stored into container `into` without creating a cycle
 func (p *Prog) value(into int) Operand {
 	if p.r.chance(0.35) && len(p.m.vars) > 0 {
@@ -1226,9 +1253,9 @@ func (p *Prog) listOp(r int) {
 	case 20:
 		p.do(&Op{Name: "LSlice", R: r})
 	case 21:
-		p.do(&Op{Name: "LContains", R: r, Vals: []Operand{p.value(-1)}})
+		p.do(&Op{Name: "LContains", R: r, Vals: []Operand{p.probeFor(r)}})
 	case 22:
-		p.do(&Op{Name: "LIndexOf", R: r, Vals: []Operand{p.value(-1)}})
+		p.do(&Op{Name: "LIndexOf", R: r, Vals: []Operand{p.probeFor(r)}})
 	default:
 		if p.r.chance(0.5) {
 			p.do(&Op{Name: "LCount", R: r})
@@ -1243,7 +1270,7 @@ func (p *Prog) objOp(r int) {
 		return
 	}
 	ob := p.m.object(r)
-	switch p.r.Intn(22) {
+	switch c := p.r.Intn(22); c {
 	case 0, 1, 2, 3:
 		k := 1 + p.r.Intn(3)
 		var vs []Operand
@@ -1303,9 +1330,8 @@ func (p *Prog) objOp(r int) {
 		p.do(&Op{Name: "OValues", R: r})
 	case 18:
 		p.do(&Op{Name: "ODict", R: r})
-	case 19:
-		p.do(&Op{Name: "OContains", R: r, Vals: []Operand{p.value(-1)}})
-	case 20:
+	case 19, 20:
+		// mostly a value the object really holds (of every kind; a nested container when it is a live variable)
 		var v Operand
 		if ob.Count() > 0 && p.r.chance(0.7) {
 			d := ob.Dict()
@@ -1314,6 +1340,11 @@ func (p *Prog) objOp(r int) {
 				switch x.(type) {
 				case at.List, at.Object:
 					v = p.value(-1)
+					for i, w := range p.m.vars {
+						if w == x {
+							v = Operand{IsReg: true, Reg: i}
+						}
+					}
 				default:
 					v = Operand{V: fromAny(x)}
 				}
@@ -1323,7 +1354,11 @@ func (p *Prog) objOp(r int) {
 		} else {
 			v = p.value(-1)
 		}
-		p.do(&Op{Name: "OKeyOf", R: r, Vals: []Operand{v}})
+		if c == 19 {
+			p.do(&Op{Name: "OContains", R: r, Vals: []Operand{v}})
+		} else {
+			p.do(&Op{Name: "OKeyOf", R: r, Vals: []Operand{v}})
+		}
 	default:
 		p.do(&Op{Name: "OGet", R: r, K: p.key(ob)})
 	}
